@@ -89,3 +89,13 @@ prop(
     level_text="At every change of the stored tip in generated histories with honest peers plus one deviating peer (forged child announcements whose extension commits to a parent chain root with inflated / deflated / zero / 2^250 total difficulty or a wrong end number, equal-difficulty competitors, truthful self-mined children, stale announcements, restarts): the new tip is proven by some peer, strictly heavier, its stored total difficulty equals the real cumulative difficulty (for a fabricated child: proven parent's total + its own difficulty), the remembered last-N headers are its ancestors, a reopen reproduces the triple, and honest growth is followed within 60 rounds.",
     level_note="ground truth comes from the chain generator; unbounded 'cannot freeze' is restated as bounded progress",
 )
+
+prop(
+    "C10", "exploration",
+    rule="one evaluation = one handler invocation (message or timer) wrapped in catch_unwind with overflow checks on; a cell = (message kind, peer state at delivery, generator class, outcome ok/ban/PANIC)",
+    sizes=tiers(16, 120, 60, 16, 8000, 900, min_evals=20000, min_cells=150),
+    technique="runtime monitoring: seeded state-aware grammar + boundary-value mutation of live honest answers + truncation / bit-flip / random-byte fuzzing at the received() boundary, panic capture, overflow-checking build, shard exit status",
+    level_text="Every generated byte string - well-formed messages of every union variant of the four protocols with numeric fields at {0,1,2,2^32-1,2^32,2^63,2^64-1,2^255,2^256-1, current+-1}, honest answers to the client's live requests with one field pushed to a boundary value and re-committed / re-mined so that the cheap gates are passed, v1 extra-field garbage, truncations, bit flips and random bytes - delivered in the peer states reached by real protocol steps (with and without scripts, fetch requests, dummy and real PoW), followed by timer ticks, returned without panic, arithmetic overflow or process death (only the documented long-fork abort is exempt).",
+    level_note="coverage-blind generator (no libFuzzer offline for this dependency tree): reach is the grammar, the live-answer mutation and the coverage matrix reported in the evidence",
+    death_is_violation=True,
+)
